@@ -94,7 +94,7 @@ GHOST_STR = ('lasttag', 'lastmsg')
 # class); G[c] = sum over the ballots that stand with candidate c of weight x multiplier (index 0: exhausted ballots).
 # Both are maintained by the engine at every write of Candidate.vote / Election.exhausted / Ballot.weight / Ballot.index
 # (sum-update lemma) while a contract with ledger=True is being verified.
-GHOST_VAL = ('T', 'Mv')
+GHOST_VAL = ('T', 'Tm')
 GHOST_ARR = ('G',)
 CUR_EX = [None]
 
@@ -709,6 +709,13 @@ def install_election(ex):
             old = z3.Select(C.heap_array(st, CAND, 'vote', 'val'), t)
             cur = ghost_get(st, 'T').t
             st.ghost['g:T'] = SVal(z3.If(inC(t), cur + v.t - old, cur))
+            cur = ghost_get(st, 'Tm').t
+            st.ghost['g:Tm'] = SVal(z3.If(inC(t), cur + v.t - old, cur))
+        elif cname == ELEC and field == 'residual' and isinstance(v, SVal):
+            # Meek family: Tm = all tallies + the residual of the round
+            old = z3.Select(C.heap_array(st, ELEC, 'residual', 'val'), t)
+            cur = ghost_get(st, 'Tm').t
+            st.ghost['g:Tm'] = SVal(z3.If(t == THE_E, cur + v.t - old, cur))
         elif cname == ELEC and field == 'exhausted' and isinstance(v, SVal):
             old = z3.Select(C.heap_array(st, ELEC, 'exhausted', 'val'), t)
             cur = ghost_get(st, 'T').t
@@ -729,7 +736,8 @@ def install_election(ex):
 
     def before_write(st, ref, cname, field, v, kind):
         "ghost counters follow every write of Candidate.state / .pending (card-update lemma)"
-        if ledger_on(ex) and (cname, field) in ((CAND, 'vote'), (ELEC, 'exhausted'), (BALLOT, 'weight'), (BALLOT, 'index')):
+        if ledger_on(ex) and (cname, field) in ((CAND, 'vote'), (ELEC, 'exhausted'), (ELEC, 'residual'), (BALLOT, 'weight'),
+                                                (BALLOT, 'index')):
             ledger_write(st, ref, cname, field, v)
         if cname != CAND or field not in ('state', 'pending'):
             return
@@ -820,6 +828,25 @@ def install_election(ex):
         varr0 = C.heap_array(pre, CAND, 'vote', 'val')
         T0, G0 = ledger_T(pre), ledger_G(pre)
         c = z3.Int('c!led')
+        if sw[0] == 'all' and (ELEC, 'residual') in W.heap and (BALLOT, 'index') not in W.heap:
+            # Meek-style distribution: every ballot line hands out its whole value (number of papers) to tallies and residual
+            msum = z3.Function(fresh_name('msum'), I, vs)
+            one = C.const_field(pre, 'V1').t
+            marr = C.heap_array(pre, BALLOT, 'multiplier', 'val')
+            nB = C.read_field(pre, C.read_field(pre, SRef(repo.resolve(ELEC), THE_E), 'electionProfile'), 'nBallots').t
+            from .arith import lift
+            total = lift(C, SInt(nB), pre)
+            Tm0 = ghost_get(pre, 'Tm').t
+            ex.col.assumed.add('ledger: partial sums of the multipliers over E.ballots (msum, definitional); the multipliers of the '
+                               'strictly ranked ballots add up to nBallots when no ballot has equal rankings (C15 post-parse invariant) (model)')
+
+            def axm(st, it):
+                e = ballots_elem(it)
+                return [msum(z3.IntVal(0)) == 0,
+                        z3.Implies(z3.And(it >= 0, it < N_BALLOT_OBJS), msum(it + 1) == msum(it) + z3.Select(marr, e)),
+                        z3.Implies(z3.Int('n_ballots_equal') == 0, msum(N_BALLOT_OBJS) == total)]
+            return [('[C08,C02] ledger: tallies + residual grew by exactly the number of ballot papers distributed so far',
+                     lambda st, it: ghost_get(st, 'Tm').t == Tm0 + msum(it))], axm
         if sw[0] == 'all':
             if (BALLOT, 'index') in W.heap or (BALLOT, 'weight') in W.heap:
                 return [], None
@@ -900,6 +927,20 @@ def install_election(ex):
     def loop_exit(C_, kind, s, L, W, pre, ex_head, fr):
         "empty-sum lemma: once no ballot stands with the swept candidate, the value of its pile is zero"
         if not ledger_on(ex) or kind != 'for':
+            return
+        fq = fr.func.qualname if fr.func else ''
+        if fq.endswith('.distributeVotes') and (CAND, 'vote') in W.heap and isinstance(s.iter, ast.BinOp):
+            # Meek distribution, reset loop (`for c in C.hopeful() + C.elected(): c.vote = V0`): zero-sum lemma — once every
+            # candidate's tally is zero, tallies + residual is the residual (assert, then use)
+            c = z3.Int('c!zs')
+            varr = C.heap_array(ex_head, CAND, 'vote', 'val')
+            allzero = z3.ForAll([c], z3.Implies(inC(c), z3.Select(varr, c) == 0))
+            if not getattr(ex, 'muted', 0):
+                ex.col.add('INV', ['C08', 'C02'], fq, 'reset:complete',
+                           'after the reset loop every candidate\'s tally is zero (continuing ones were reset, the others hold none)',
+                           C.assumptions(ex_head), allzero)
+            ex.col.assumed.add('ledger: zero-sum lemma (all tallies zero  =>  tallies + residual == residual) (model)')
+            ex_head.assume(ghost_get(ex_head, 'Tm').t == z3.Select(C.heap_array(ex_head, ELEC, 'residual', 'val'), THE_E))
             return
         sw = sweep_of(s, pre, fr)
         if sw is None or sw[0] != 'at':
